@@ -84,17 +84,21 @@ def _thread_from(B, site_bb, ret_local, variant, max_steps=16):
     facts = {ret_local: variant}
     payload = {}
     dv = {}
+    seeded = {("f", ret_local)}   # facts that derive from the seed (only those justify giving this path its own copy)
     chain = []
     t0 = B["blocks"][site_bb]["term"]
-    if not t0 or t0["t"] not in ("goto", "drop") or t0.get("to") is None:
+    if not t0 or t0["t"] not in ("goto", "drop", "call") or t0.get("to") is None:
         return False
     cur = t0["to"]
 
     def kill(l):
         facts.pop(l, None)
         dv.pop(l, None)
+        seeded.discard(("f", l))
+        seeded.discard(("d", l))
         for k in [k for k in payload if k[0] == l]:
             payload.pop(k)
+            seeded.discard(("p",) + k)
 
     for _ in range(max_steps):
         blk = B["blocks"][cur]
@@ -112,14 +116,24 @@ def _thread_from(B, site_bb, ret_local, variant, max_steps=16):
                 q = _place_of(rv["op"])
                 if q is not None and not q.get("p") and q["l"] in facts:
                     v = facts[q["l"]]
-                    pay = {(l,) + k[1:]: x for k, x in payload.items() if k[0] == q["l"]}
+                    was = ("f", q["l"]) in seeded
+                    pay = {(l,) + k[1:]: (x, ("p",) + k in seeded) for k, x in payload.items() if k[0] == q["l"]}
                     kill(l)
                     facts[l] = v
-                    payload.update(pay)
+                    if was:
+                        seeded.add(("f", l))
+                    for k2, (x, sd) in pay.items():
+                        payload[k2] = x
+                        if sd:
+                            seeded.add(("p",) + k2)
                 elif q is not None and len(q.get("p", [])) == 2 and isinstance(q["p"][0], dict) and "d" in q["p"][0] and isinstance(q["p"][1], dict) and "f" in q["p"][1] and (q["l"], q["p"][0]["d"], q["p"][1]["f"]) in payload:
-                    v = payload[(q["l"], q["p"][0]["d"], q["p"][1]["f"])]
+                    key_ = (q["l"], q["p"][0]["d"], q["p"][1]["f"])
+                    v = payload[key_]
+                    was = ("p",) + key_ in seeded
                     kill(l)
                     facts[l] = v
+                    if was:
+                        seeded.add(("f", l))
                 elif "c" in rv["op"] and "bool" in rv["op"]["c"]:
                     kill(l)
                     facts[l] = "1" if rv["op"]["c"]["bool"] else "0"
@@ -130,15 +144,21 @@ def _thread_from(B, site_bb, ret_local, variant, max_steps=16):
                 for i, op in enumerate(rv["ops"]):
                     q = _place_of(op)
                     if q is not None and not q.get("p") and q["l"] in facts:
-                        inner[(l, rv.get("variant"), i)] = facts[q["l"]]
+                        inner[(l, rv.get("variant"), i)] = (facts[q["l"]], ("f", q["l"]) in seeded)
                 kill(l)
                 facts[l] = str(rv["vi"])
-                payload.update(inner)
+                for k2, (x, sd) in inner.items():
+                    payload[k2] = x
+                    if sd:
+                        seeded.add(("p",) + k2)
             elif rv["k"] == "discr":
                 q = rv["pl"]
+                was = ("f", q["l"]) in seeded
                 kill(l)
                 if not q.get("p") and q["l"] in facts:
                     dv[l] = facts[q["l"]]
+                    if was:
+                        seeded.add(("d", l))
             else:
                 kill(l)
         t = blk["term"]
@@ -151,6 +171,8 @@ def _thread_from(B, site_bb, ret_local, variant, max_steps=16):
             val = dv.get(q["l"], facts.get(q["l"]) if B["locals"][q["l"]]["ty"] == "bool" else None)
             if val is None:
                 return False
+            if not (("d", q["l"]) in seeded or ("f", q["l"]) in seeded):
+                return False   # decided by something built on the way, not by the seed: a later seed gets it with less code
             arms = dict((a_, b_) for a_, b_ in t["arms"])
             tgt = arms.get(val, t["otherwise"])
             # clone the chain
@@ -182,9 +204,24 @@ def _thread_from(B, site_bb, ret_local, variant, max_steps=16):
                     known = v
                 elif re.match(r"^(std|core)::option::Option<", ty):
                     known = "0" if v == "1" else "1"
+            inner = None
+            inner_sd = False
+            was = a0 is not None and ("f", a0["l"]) in seeded
+            if known == "0" and a0 is not None:
+                # Continue(v): v is the payload of the Ok / Some that went in
+                for vn in ("Ok", "Some"):
+                    if (a0["l"], vn, 0) in payload:
+                        inner = payload[(a0["l"], vn, 0)]
+                        inner_sd = ("p", a0["l"], vn, 0) in seeded
             kill(d)
             if known is not None:
                 facts[d] = known
+                if was:
+                    seeded.add(("f", d))
+                if inner is not None:
+                    payload[(d, "Continue", 0)] = inner
+                    if inner_sd:
+                        seeded.add(("p", d, "Continue", 0))
             chain.append(cur)
             cur = t["to"]
         else:
@@ -215,6 +252,14 @@ def _thread_returns(B, first, last, ret_bb, ret_local):
                 pv = _known_variant(B["blocks"][pi], ret_local)
                 if pv is not None:
                     work.append((pi, pv))
+    # `?` inside the spliced body: `ret = from_residual(..)` is an Err (None for an Option) whatever it carries
+    rty = B["locals"][ret_local]["ty"] if ret_local < len(B["locals"]) else ""
+    resid = "1" if re.match(r"^(std|core)::result::Result<", rty) else ("0" if re.match(r"^(std|core)::option::Option<", rty) else None)
+    if resid is not None:
+        for bi in range(first, last):
+            t = B["blocks"][bi]["term"]
+            if t and t["t"] == "call" and t.get("to") is not None and re.search(r"FromResidual(<.*>)?>?::from_residual$", _callee_decl(t) or "") and t["dest"]["l"] == ret_local and not t["dest"].get("p") and not B["blocks"][bi].get("cleanup"):
+                work.append((bi, resid))
     for bi, v in work:
         _thread_from(B, bi, ret_local, v)
 
@@ -492,6 +537,8 @@ def inline_new_helpers(raws, is_new, only_into_new=False, prior=None):
             for B in list(d["bodies"]):
                 if B["kind"] not in ("Fn", "AssocFn", "Closure") or len(B["blocks"]) > MAX_BLOCKS:
                     continue
+                if B.get("from_expansion"):
+                    continue  # derive output: a call from there to a function of the crate is a `*_with` hook, not an extracted helper
                 if only_into_new and not (B["path"] in new or any(B["path"].startswith(h + "::") for h in new)):
                     continue
                 nb = len(B["blocks"])
